@@ -70,7 +70,10 @@ JudgeAcc(e) ==
 JudgeFault(e) ==
   LET o == e.out IN
   \* events in which no fault was injected (the query made no SAT call) are vacuous; they are counted by the driver
-  Report("C17:fault_aborts", o.faulted => (o.panic # "" /\ o.st = "none" /\ ~o.has_ext))
+  /\ Report("C17:fault_aborts", o.faulted => (o.panic # "" /\ o.st = "none" /\ ~o.has_ext))
+  \* the failure came from the exchange with an external solver process (missing / truncated / garbled reply at that call): C16 as well
+  /\ ("how" \in DOMAIN e /\ Len(e.how) > 8 /\ SubSeq(e.how, 1, 8) = "process:") =>
+       Report("C16:failed_exchange_is_not_a_result", o.faulted => (o.panic # "" /\ o.st = "none" /\ ~o.has_ext))
 
 (* C18: bound on the number of SAT calls per component, no candidate examined twice *)
 CcAF(e) == [args |-> ToSet(e.labels), att |-> Pairs(e.att)]
